@@ -5,6 +5,8 @@ package value
 import (
 	"bytes"
 	"io"
+	"strconv"
+	"strings"
 
 	"github.com/lugu/qiloop/internal/zzverif/sym"
 )
@@ -127,4 +129,77 @@ func C07TypedData() {
 			sym.Reach("rejected")
 		}
 	})
+}
+
+// C08WideTuple: a dynamic value whose signature is a tuple / structure of many adjacent fixed-size
+// members (40 doubles = 320 bytes; 70 int32 = 280 bytes; 300 bytes then a string), cut at every
+// position: refused. (Runs of constant-size members are what a reader is tempted to gather.)
+func C08WideTuple() {
+	var sig string
+	var data []byte
+	switch sym.Choose("shape", 3) {
+	case 0:
+		sig = "(" + strings.Repeat("d", 40) + ")"
+		data = make([]byte, 320)
+	case 1:
+		sig = "(" + strings.Repeat("i", 70) + ")<Wide"
+		for i := 0; i < 70; i++ {
+			sig += ",m" + strconv.Itoa(i)
+		}
+		sig += ">"
+		data = make([]byte, 280)
+	default:
+		sig = "(" + strings.Repeat("l", 37) + "Cs)"
+		data = append(make([]byte, 37*8+1), zzStr(sym.Str("tail", 2))...)
+	}
+	data[0], data[len(data)/2], data[len(data)-1] = sym.U8("first"), sym.U8("middle"), sym.U8("last")
+	v := Opaque(sig, data)
+	var buf bytes.Buffer
+	sym.Assert(v.Write(&buf) == nil, "wide/encode-ok")
+	enc := buf.Bytes()
+	full, err := NewValue(bytes.NewReader(enc))
+	sym.Assert(err == nil && full != nil, "wide/full-decodes")
+	k := sym.Concrete(sym.Int("cut", 0, len(enc)-1))
+	var src io.Reader
+	if sym.Choose("source-kind", 2) == 0 {
+		src = bytes.NewReader(enc[:k])
+	} else {
+		src = &zzPlainReader{data: enc[:k]}
+	}
+	_, err = NewValue(src)
+	sym.Assert(err != nil, "truncated-wide-tuple")
+	sym.Reach("wide-cut-checked")
+}
+
+// C08AfterOtherSignature: the decoder has first decoded a value of one signature; a truncated value of a
+// SIMILAR signature (same structure names, a nested structure of the same name with other members) is
+// still refused at every cut, and the full value is still read completely. Both orders.
+func C08AfterOtherSignature() {
+	sigA := "((i)<Inner,a>s)<Outer,in,name>"
+	sigB := "((il)<Inner,a,b>s)<Outer,in,name>"
+	dataA := zzCat(zzLE32(sym.U32("a")), zzStr(sym.Str("nameA", 1)))
+	dataB := zzCat(zzLE32(sym.U32("a2")), zzLE64(sym.U64("b")), zzStr(sym.Str("nameB", 1)))
+	first, second := Opaque(sigA, dataA), Opaque(sigB, dataB)
+	if sym.Choose("order", 2) == 1 {
+		first, second = second, first
+	}
+	var b1, b2 bytes.Buffer
+	sym.Assert(first.Write(&b1) == nil, "history/encode-first")
+	sym.Assert(second.Write(&b2) == nil, "history/encode-second")
+	_, err := NewValue(bytes.NewReader(b1.Bytes()))
+	sym.Assert(err == nil, "history/first-decodes")
+	enc := b2.Bytes()
+	r := bytes.NewReader(append(append([]byte{}, enc...), 0x5A))
+	back, err := NewValue(r)
+	sym.Assert(err == nil, "history/second-decodes")
+	if err == nil {
+		sym.Assert(r.Len() == 1, "history/second-consumed-exactly")
+		var again bytes.Buffer
+		back.Write(&again)
+		sym.Assert(sym.EqBytes(again.Bytes(), enc), "history/second-reencodes-identically")
+	}
+	k := sym.Concrete(sym.Int("cut", 0, len(enc)-1))
+	_, err = NewValue(bytes.NewReader(enc[:k]))
+	sym.Assert(err != nil, "truncated-after-similar-signature")
+	sym.Reach("history-cut-checked")
 }
